@@ -114,7 +114,7 @@ impl World {
                 return Err(fails);
             }
             let cap = s.capacity();
-            let rc = s.verif_refcount();
+            let rc = shadow::refcount_of(s);
             Ok(Some(Obs { raw, ptr, len, cap, kind: Kind::Heap, rc, block: Some((start, size)) }))
         } else {
             let ptr = s.as_str().as_ptr() as usize;
